@@ -40,8 +40,8 @@ Applicable(ev) ==
   /\ CalcNumThreads(IF LenKnown(ev.p.src) THEN Len(ev.p.input) ELSE -1,
                     FinalParams(ev.p).nt, FinalParams(ev.p).ntv, Avail) <= MaxW
 
-RECURSIVE NextProg(_)
-NextProg(i) == IF i > Len(Rec) THEN i ELSE IF Rec[i].e = "prog" THEN i ELSE NextProg(i + 1)
+\* (skipping to the next program is done one line per step: a recursion over tens of thousands of
+\*  lines is very slow in TLC)
 
 Idle == [active |-> FALSE, run |-> 0]
 
@@ -65,7 +65,7 @@ TProg ==
           /\ Step1
      ELSE /\ UNCHANGED vars
           /\ tf' = Idle
-          /\ l' = NextProg(l + 1)
+          /\ Step1
 
 \* events that do not change the protocol state
 TStutter ==
@@ -192,7 +192,7 @@ Reject ==
   /\ l <= Len(Rec)
   /\ ~ENABLED Strict
   /\ PrintT(<<"REJECT", tf.run, Ev.i, Ev.e>>)
-  /\ l' = IF Ev.e = "prog" THEN l ELSE NextProg(l + 1)
+  /\ l' = IF Ev.e = "prog" THEN l ELSE l + 1
   /\ tf' = Idle
   /\ UNCHANGED vars
 
@@ -200,7 +200,7 @@ SkipIdle ==
   /\ ~tf.active
   /\ l <= Len(Rec)
   /\ ~IsEv("prog")
-  /\ l' = NextProg(l)
+  /\ Step1
   /\ UNCHANGED <<vars, tf>>
 
 Finish ==
